@@ -120,6 +120,7 @@ type FuncTr struct {
 	astLoops   []ast.Node
 	rfLoops    []*LoopInfo
 	recvTy     types.Type
+	elemsEager map[string]bool
 }
 
 type deferred struct {
@@ -533,13 +534,24 @@ type FuncResult struct {
 	Assumptions []string
 }
 
-func verifyFunc(w *World, fn *ssa.Function, c *Contract) (res *FuncResult) {
+// verifyFunc translates fn; when the specification turns out to use slice-membership sets (elems_*),
+// the translation is repeated so that plain stores emitted earlier also carry their elems frame facts.
+func verifyFunc(w *World, fn *ssa.Function, c *Contract) *FuncResult {
+	res, used := verifyFuncPass(w, fn, c, nil)
+	if len(used) > 0 && res.Err == nil {
+		res, _ = verifyFuncPass(w, fn, c, used)
+	}
+	return res
+}
+
+func verifyFuncPass(w *World, fn *ssa.Function, c *Contract, eager map[string]bool) (res *FuncResult, usedElems map[string]bool) {
 	res = &FuncResult{Fn: fn}
 	d := NewDecls()
 	ft := &FuncTr{w: w, fn: fn, c: c, d: d, vals: map[ssa.Value]Val{}, edges: map[*ssa.BasicBlock][]Edge{},
 		atBlk: map[*ssa.BasicBlock]*Term{}, names: map[string]int{}, params: map[string]SV{}, pureParams: map[string]bool{}}
 	ft.h = &HeapCtx{w: w, d: d, arrSorts: map[string]*Sort{}}
 	ft.h.emit = func(t *Term) { ft.assumeRaw(t) }
+	ft.elemsEager = eager
 	ft.overflow = c.Overflow
 	defer func() {
 		if r := recover(); r != nil {
@@ -555,9 +567,20 @@ func verifyFunc(w *World, fn *ssa.Function, c *Contract) (res *FuncResult) {
 		res.Obls = ft.obls
 		res.Cons = ft.cons
 		res.Decls = d.Text()
+		if eager == nil {
+			usedElems = map[string]bool{}
+			d.mu.Lock()
+			for n := range d.seen {
+				if strings.HasPrefix(n, "elems_") && !strings.HasSuffix(n, "$ax") {
+					usedElems[strings.TrimPrefix(n, "elems_")] = true
+				}
+			}
+			d.mu.Unlock()
+		}
 	}()
 	if len(fn.Blocks) == 0 {
-		panic(unsupported("function has no body"))
+		res.Err = fmt.Errorf("%s: function has no body", fn.String())
+		return
 	}
 	w.tparams = nil
 	for f := fn; f != nil; f = f.Parent() {
@@ -571,7 +594,7 @@ func verifyFunc(w *World, fn *ssa.Function, c *Contract) (res *FuncResult) {
 	if err := ft.run(); err != nil {
 		res.Err = fmt.Errorf("%s: %v (at %s)", fn.String(), err, ft.posStr(ft.curPos))
 	}
-	return res
+	return
 }
 
 func (ft *FuncTr) run() error {
@@ -1186,7 +1209,25 @@ func (ft *FuncTr) store(st *State, at *Term, pv Val, ty types.Type, v *Term, pos
 			ft.onWrite(st, at, n, pv.T, pos)
 		}
 	}
+	var before *Term
+	var mname string
+	if !isStructT(ty) && !isArrayT(ty) {
+		srt := ft.w.sortOf(ft.d, ty)
+		if ft.elemsEager[srt.Mangle()] {
+			mname = memArrName(srt)
+			before = ft.h.arr(st, mname, SArray(SPtr, srt))
+		}
+	}
 	ft.h.writeAt(st, pv.T, ty, v)
+	if before != nil {
+		// a plain store: element sets of slices over other array objects are unchanged
+		after := ft.h.arr(st, mname, before.Sort)
+		es := before.Sort.V
+		sv := &Term{"es", SSlc}
+		e1 := ft.h.elemsOf(after, sv, es)
+		e0 := ft.h.elemsOf(before, sv, es)
+		ft.assume(at, Forall([]Bound{{"es", SSlc}}, Implies(Or(IsNil(SlcArr(sv)), Not(Eq(PObjID(SlcArr(sv)), PObjID(pv.T)))), Eq(e1, e0)), []*Term{e1}))
+	}
 }
 
 func exprText(ft *FuncTr, v ssa.Value) string {
